@@ -935,8 +935,9 @@ class Twin(Job):
     continuations in between: the original's outputs must be bit-identical; a clone continues like the original"""
     kind = "twin"
 
-    def __init__(self, e, xs, noise_seed, mode="f"):
-        self.e, self.xs, self.noise_seed, self.mode = e, xs, noise_seed, mode
+    def __init__(self, e, xs, noise_seed, mode="f", clone_pt=None):
+        # clone_pt: take the clones after that many values (0 = clones of the fresh view); None = drawn from noise_seed
+        self.e, self.xs, self.noise_seed, self.mode, self.clone_pt = e, xs, noise_seed, mode, clone_pt
 
     def plan(self):
         rng = random.Random(self.noise_seed)
@@ -945,18 +946,30 @@ class Twin(Job):
         clonable = "add" not in gen.tree_names(self.e)
         line = 0
         clone_at = rng.randrange(len(self.xs)) if clonable and self.xs else None
+        if clone_at is not None and rng.random() < 0.6:
+            # prefer the moments where a clone is most likely to differ from its original: warm-up and the first wrap-around
+            w = gen.window_of(self.e)
+            clone_at = min(len(self.xs) - 1, rng.choice([0, 0, max(0, w - 2), w - 1, w, rng.randint(0, 2 * w)]))
+        if clonable and self.xs and self.clone_pt is not None:
+            clone_at = min(self.clone_pt, len(self.xs)) - 1
+
+        def take_clones(x):
+            nonlocal line
+            ops.append("K 0"); line += 1
+            # feed the clone something else, then come back: must not affect the original
+            ops.append("W 0")
+            for _ in range(rng.randint(1, 4)):
+                ops.append("X " + enc(self.mode, x + rng.randint(1, 5))); line += 1
+            ops.append("W 0")
+            ops.append("K 1"); line += 1   # a second clone of the original, fed the same continuation later
+        if clone_at == -1:
+            take_clones(self.xs[0])
         for t, x in enumerate(self.xs):
             ops.append("X " + enc(self.mode, x)); marks.append(line); line += 1
             for _ in range(rng.choice([0, 0, 1, 2, 3])):
                 ops.append("L"); self.repeats.append((line, marks[-1])); line += 1
             if clone_at == t:
-                ops.append("K 0"); line += 1
-                # feed the clone something else, then come back: must not affect the original
-                ops.append("W 0")
-                for _ in range(rng.randint(1, 4)):
-                    ops.append("X " + enc(self.mode, x + rng.randint(1, 5))); line += 1
-                ops.append("W 0")
-                ops.append("K 1"); line += 1   # a second clone of the original, fed the same continuation later
+                take_clones(x)
         self.clone_at = clone_at
         return ops, marks
 
@@ -995,11 +1008,12 @@ class Twin(Job):
         return _nontriv((gen.render(self.e, "q"), tuple(self.xs), self.noise_seed), outputs(self.mode, impl[0]), 1)
 
     def to_json(self):
-        return dict(kind=self.kind, e=jexpr(self.e), xs=jvals(self.xs), noise_seed=self.noise_seed, mode=self.mode)
+        return dict(kind=self.kind, e=jexpr(self.e), xs=jvals(self.xs), noise_seed=self.noise_seed, mode=self.mode,
+                    clone_pt=self.clone_pt)
 
     @staticmethod
     def from_json(d):
-        return Twin(uexpr(d["e"]), uvals(d["xs"]), d["noise_seed"], d.get("mode", "f"))
+        return Twin(uexpr(d["e"]), uvals(d["xs"]), d["noise_seed"], d.get("mode", "f"), d.get("clone_pt"))
 
 
 JOB_KINDS["twin"] = Twin
@@ -1045,6 +1059,13 @@ def jobs_C17(rng, tier):
             t = Twin(e, xs, rng.randrange(10 ** 9))
             js.append(t)
             js.append(Corr(e, "q", Twin(e, xs, t.noise_seed, "q").plan()[0], "pattern"))
+        # clones taken at the moments where a copy is most likely to differ from its original: of the fresh view, after the
+        # first value, one short of a full window, on the full window, and a little later (first wrap-around of a ring)
+        e = mk(nm, ECHO, gen.gen_params(rng, nm, 7))
+        w = gen.window_of(e)
+        for pt in (0, 1, max(1, w - 1), w, w + 2):
+            fam, xs = stream_for(rng, e, 3 * w + 6)
+            js.append(Twin(e, xs, rng.randrange(10 ** 9), clone_pt=pt))
     return js
 
 
@@ -1163,6 +1184,31 @@ def finding_matches(entry, job, failure):
 
 # ====================================================================== driver
 
+def add_clone_hops(js, rng):
+    """In about a third of the jobs the view is cloned at an early moment (before the first value, during warm-up, or just
+    after the window filled) and the run continues on the clone.  A clone must continue exactly like the original (C17), so
+    every oracle and every correspondence still has to hold; a view whose behaviour depends on something a clone does not
+    carry over (capacity of a buffer, layout of a ring, a cache) then fails the property it implements, with the history
+    and the clone point as the counter-example."""
+    n = 0
+    for j in js:
+        e = getattr(j, "e", None)
+        if e is None or rng.random() > 0.34:
+            continue
+        es = j.exprs() if isinstance(j, Relation) else [e]
+        if any("add" in gen.tree_names(x) for x in es):
+            continue   # Add does not implement Clone
+        w = max(gen.window_of(x) for x in es)
+        t0 = rng.choice([0, 1, max(1, w - 1), w, rng.randint(0, 2 * w + 2)])
+        if isinstance(j, SpecEq) and j.hop is None:
+            j.hop = min(t0, len(j.xs)); n += 1
+        elif isinstance(j, Relation) and "hop" not in j.params and j.rel not in ("decomp",):
+            j.params["hop"] = min([t0] + [len(s) for s in j.streams]); n += 1
+        elif isinstance(j, Corr) and not any(o[0] in "KW" for o in j.ops):
+            j.ops = core.hop_ops(j.ops, t0); n += 1
+    return n
+
+
 def check_property(pid, tier, seed, do_lean=True, write_evidence=True):
     t0 = time.time()
     if pid not in GENERATORS:
@@ -1184,6 +1230,7 @@ def check_property(pid, tier, seed, do_lean=True, write_evidence=True):
     js = []
     if build_error is None:
         js = GENERATORS[pid](rng, tier)
+        add_clone_hops(js, random.Random(seed * 7919 + int(pid[1:])))
         CH = 4000
         try:
             for i in range(0, len(js), CH):
